@@ -79,6 +79,12 @@ def val(code):
     raise ValueError(code)
 
 
+def dec_str(x):
+    """finite decimal spelling of a Fraction (for text amounts)"""
+    return str(_stddec.Context(prec=80).divide(
+        _stddec.Decimal(F(x).numerator), _stddec.Decimal(F(x).denominator)))
+
+
 def enc(x):
     """Exact library number -> spelling (for reports)."""
     from decimalfp import Decimal
